@@ -241,7 +241,7 @@ func tapBubble(c *harness.Ctx) {
 	}
 	hold := c.Cfg["hold"] != ""
 	pure := c.Cfg["pure"] != ""
-	z.Hold = hold
+	z.SetHold(hold)
 	nstim := 3 + c.Choose(9, "nstimuli")
 	for i := 0; i < nstim; i++ {
 		w6, w7 := 0, 0
@@ -307,7 +307,7 @@ func tapBubble(c *harness.Ctx) {
 	for z.DeliverOne() {
 		synctest.Wait()
 	}
-	z.Hold = false
+	z.SetHold(false)
 	time.Sleep(quiet)
 	synctest.Wait()
 	for z.DeliverOne() {
